@@ -325,30 +325,39 @@ def run_worker(binary, argv, env, outdir, i, timeout):
 
 
 def run_second_build_stage(cfg, prop, tier, seed, sources, gen_dirs, base, env, outdir, viols, counters, harness_problems):
-    """Repeat part of the workload (cfg["second_build"] = {"flavour", "only_type"}) with the same sources built by another compiler."""
-    sb = cfg["second_build"]
+    """Repeat part of the workload with the same sources built another way. cfg["second_build"] is one dict or a list of dicts
+    {"flavour", "only_type", optional "flags" (extra compile flags), "prefix" (violation-key prefix, default gxx), "label", "counter_prefix"}."""
+    sbs = cfg["second_build"]
+    for sb in (sbs if isinstance(sbs, list) else [sbs]):
+        _one_second_build(sb, cfg, prop, tier, seed, sources, gen_dirs, base, env, outdir, viols, counters, harness_problems)
+
+
+def _one_second_build(sb, cfg, prop, tier, seed, sources, gen_dirs, base, env, outdir, viols, counters, harness_problems):
+    pfx = sb.get("prefix", "gxx") + ":"
+    label = sb.get("label", "built with g++")
+    cpfx = sb.get("counter_prefix", "second_compiler_")
     try:
-        binary, binfo = build_engine(cfg["engine"], sb["flavour"], tier, sources, list(cfg.get("flags", [])), gen_dirs)
+        binary, binfo = build_engine(cfg["engine"], sb["flavour"], tier, sources, list(cfg.get("flags", [])) + list(sb.get("flags", [])), gen_dirs)
     except BuildViolation as bv:
-        e = viols.setdefault("gxx:" + bv.key, {"key": "gxx:" + bv.key, "what": "second compiler (%s): %s" % (sb["flavour"], bv.key), "count": 0, "replay": ""})
+        e = viols.setdefault(pfx + bv.key, {"key": pfx + bv.key, "what": "%s (%s): %s" % (label, sb["flavour"], bv.key), "count": 0, "replay": ""})
         e["count"] += 1
         return
-    sdir = os.path.join(outdir, "second-build")
+    sdir = os.path.join(outdir, "second-build-" + sb.get("prefix", "gxx"))
     os.makedirs(sdir, exist_ok=True)
-    sargs = list(base) + ["--worker", "0/1", "--only-type", sb["only_type"]]
+    sargs = list(base) + ["--worker", "0/1"] + (["--only-type", sb["only_type"]] if sb.get("only_type") else [])
     sargs[sargs.index("--out") + 1] = sdir
     _, rc, to, dt = run_worker(binary, sargs, env, sdir, 0, cfg.get("second_build_timeout", 900))
     wj = os.path.join(sdir, "worker-0.json")
     if to:
-        harness_problems.append("second-build stage hit its watchdog (inconclusive)")
+        harness_problems.append("second-build stage (%s) hit its watchdog (inconclusive)" % label)
         return
     if os.path.exists(wj):
         w = json.load(open(wj))
         for k, v in w["counters"].items():
-            counters["second_compiler_" + k] = counters.get("second_compiler_" + k, 0) + v
+            counters[cpfx + k] = counters.get(cpfx + k, 0) + v
         for v in w["violations"]:
-            key = "gxx:" + v["key"]
-            e = viols.setdefault(key, {"key": key, "what": "built with g++: " + v["what"], "count": 0, "replay": v["replay"]})
+            key = pfx + v["key"]
+            e = viols.setdefault(key, {"key": key, "what": label + ": " + v["what"], "count": 0, "replay": v["replay"]})
             e["count"] += v["count"]
     if rc not in (0, 1) or not os.path.exists(wj):
         stderr_txt = open(os.path.join(sdir, "worker-0.stderr"), errors="replace").read()
@@ -356,13 +365,13 @@ def run_second_build_stage(cfg, prop, tier, seed, sources, gen_dirs, base, env, 
         cp = os.path.join(sdir, "worker-0.current")
         cur = open(cp, errors="replace").read().strip() if os.path.exists(cp) else ""
         if skey or cur:
-            key = "gxx:" + (skey or ("crash:rc%d" % rc))
-            rp = os.path.join(outdir, "replay-%s-second-build-crash.json" % prop)
-            json.dump({"property": prop, "key": key, "what": "second-compiler build aborted (rc=%d)" % rc, "case": cur, "report": stderr_txt[-12000:]}, open(rp, "w"), indent=1)
-            e = viols.setdefault(key, {"key": key, "what": "built with g++: abnormal exit rc=%d: %s" % (rc, skey or "crash"), "count": 0, "replay": rp})
+            key = pfx + (skey or ("crash:rc%d" % rc))
+            rp = os.path.join(outdir, "replay-%s-second-build-%s-crash.json" % (prop, sb.get("prefix", "gxx")))
+            json.dump({"property": prop, "key": key, "what": "%s: aborted (rc=%d)" % (label, rc), "case": cur, "report": stderr_txt[-12000:]}, open(rp, "w"), indent=1)
+            e = viols.setdefault(key, {"key": key, "what": "%s: abnormal exit rc=%d: %s" % (label, rc, skey or "crash"), "count": 0, "replay": rp})
             e["count"] += 1
         else:
-            harness_problems.append("second-build stage exited rc=%d without a case in flight:\n%s" % (rc, stderr_txt[-2000:]))
+            harness_problems.append("second-build stage (%s) exited rc=%d without a case in flight:\n%s" % (label, rc, stderr_txt[-2000:]))
 
 
 def run_fuzz_stage(cfg, prop, tier, seed, gen_sources, gen_dirs, engine_binary, env, outdir, viols, counters, harness_problems, artifact=None):
